@@ -9,7 +9,8 @@ first / last / the explicit index over the timeseries met by a depth-first walk;
 (original value, or the last / next non-NaN observation under ffill / bfill). No pandas alignment primitive is used by the oracle.
 
 Spec format (plain JSON)
-    tree node : ['s', idx, vals, dtype]            Series; idx = sorted axis positions, vals = floats, None = NaN
+    tree node : ['s', idx, vals, dtype]            Series; idx = sorted axis positions, vals = floats, None = NaN. A position is an int (the axis stamp) or a float
+                                                   k + m * 1e-7 = the axis stamp k moved by m microseconds (see _stamp)
                 ['f', idx, cols, rows]             DataFrame; rows[i][j] = float or None; cols = labels (all str or all int; may repeat)
                 both may carry a 5th element, a dict of options: {'unit': 's'|'ms'|'us'|'ns'} = resolution of the DatetimeIndex,
                 {'intcols': [j, ..]} = these frame columns are int64 (no NaN in them)
@@ -18,7 +19,9 @@ Spec format (plain JSON)
                                                    or row / transposed block); flat then lists the cells the view shows
                 ['v', x]                           a non-timeseries member (None / int / float / str)
                 ['list', [nodes]], ['tuple', [nodes]], ['dict', [[key, node], ..]], ['Dict', [[key, node], ..]]
+                ['mylist', [nodes]] (a user subclass of list), ['odict', ..] (collections.OrderedDict), ['dictattr', ..] (pyg_base.dictattr), ['mydict', ..] (a user subclass of dict)
     join      : 'ij' / 'inner' / 'oj' / ... / ['idx', positions(, unit)] (a DatetimeIndex) / ['series', positions(, unit)] (a Series used as index)
+                / ['raw', positions, form] (the index in another raw form: an object-dtype pd.Index of datetime.datetime 'obj_dt' / pd.Timestamp 'obj_ts' / both 'obj_mixed', a DataFrame 'frame')
                 / ['arg', i] (presync(index='p<i>'): the index of that argument)
                 / ['member', k] (the k-th timeseries of the tree, in walk order, is ALSO handed in as the index) / ['member_index', k] (its .index object)
     flags     : share_index (equal stamps + equal unit -> one index object), same_objects (equal leaf specs -> ONE object, passed several times),
@@ -76,6 +79,17 @@ ASSUMPTIONS = [
     'in one arrays case in eight every array is a view of ONE buffer starting at its first element (a[:n], a[::2][:n], a[::3][:n], row-strided and transposed blocks), so that '
     'arrays of one case can agree in address, dtype and shape and still hold other cells; the buffer itself must come back unwritten',
     'the decorated function is a plain function: pyg_base.wrapper refuses a functools.partial (no __name__), so "a partial with keywords" (brief class 24) cannot be decorated at all',
+    'in about one case in twelve ONE timeseries (or the explicit target) has ONE stamp moved by 1 .. 999999 microseconds, mostly a stamp another operand / the target holds too: the two are '
+    'different labels for every join policy and an as-of read takes the observation at or before / after the stamp at microsecond resolution; the index holding the moved stamp has resolution us or ns '
+    '(an index of resolution s / ms cannot hold it: pandas would floor it while the harness builds the operand)',
+    'an explicit index is also handed over as an object-dtype pd.Index holding datetime.datetime / pd.Timestamp objects (or both in turns) and as a DataFrame carrying the index (df_reindex docstring: '
+    '"index : str, timeseries, pd.Index"); the result must carry the same instants, the type of the result index is not looked at. A bare list / tuple / numpy array of datetimes, of numpy datetime64 or of ISO text is NOT '
+    'generated: the unchanged tree only takes a list for one bare Series (pandas does), loops over it element by element next to a list of operands, and refuses it in df_index / df_sync / presync '
+    '("did not provide an index"); text labels come back as text',
+    'containers of derived classes: a user subclass of list, collections.OrderedDict and pyg_base.dictattr are generated below the root and as the root of df_* calls (in one case in seven, every second container); '
+    'their type must come back. A user subclass of dict (also of Dict / dictattr / OrderedDict, a defaultdict) is OUTSIDE the statement ("nested list/dict arguments": the loop factory lists the dict classes it walks by exact type, so that dictable / cell - dicts themselves - stay leaves) and generated only with PV_C03_INCLUDE_DICT_SUBCLASS=1: on the unchanged tree its members enter the common index '
+    '(_pandas.py:72-77 _list uses isinstance) but come back unaligned (_loop.py:208 asks type(arg) in self.types) - df_sync([D(x=a, y=b), a]) hands back x and y on their own indices. '
+    'Subclasses of tuple are not generated (nested tuples are outside the domain, see above; a namedtuple cannot be rebuilt from a list)',
     'F11 (fill method + frame with >= 2 columns + a partially-NaN row whose row-wise as-of value differs from the per-column as-of value at some target stamp) '
     'is fixed in /repo and generated; PV_C03_EXCLUDE_F11=1 leaves the class out by construction for runs against a tree without that fix',
     'F14 (bare arrays whose common length is 0 while some array is longer: ts[-0:] kept the whole array) is fixed in /repo and generated; '
@@ -96,6 +110,37 @@ INCLUDE_F11 = os.environ.get('PV_C03_EXCLUDE_F11', '') != '1'      # fixed in /r
 INCLUDE_F14 = os.environ.get('PV_C03_EXCLUDE_F14', '') != '1'      # fixed in /repo: the class is generated by default
 # F15 was fixed in /repo by 7d8a266 (nona mask of a zero-row frame), so the class is generated again; PV_C03_EXCLUDE_F15=1 leaves it out for older trees
 INCLUDE_F15 = os.environ.get('PV_C03_EXCLUDE_F15', '') != '1'
+# a USER subclass of dict (class D(dict), a subclass of pyg_base.Dict / dictattr / OrderedDict, a defaultdict) below or at the root: its members take part in the common index
+# (_pandas._list uses isinstance) but are handed back unaligned (_loop.loops._wrapped asks `type(arg) in self.types`): a defect met by the generalisation pass for brief class 35,
+# see ASSUMPTIONS. Not generated unless PV_C03_INCLUDE_DICT_SUBCLASS=1
+INCLUDE_DICT_SUBCLASS = os.environ.get('PV_C03_INCLUDE_DICT_SUBCLASS', '') == '1'
+
+# container tags: 'mylist' = a user subclass of list, 'odict' = collections.OrderedDict, 'dictattr' = pyg_base.dictattr, 'mydict' = a user subclass of dict (behind the switch)
+_LISTS = ('list', 'tuple', 'mylist')
+_DICTS = ('dict', 'Dict', 'odict', 'dictattr', 'mydict')
+_OWNED = ('list', 'mylist') + _DICTS          # the containers a caller owns and may hand to several calls (every kind but the tuple)
+_DERIVED = ('mylist', 'odict', 'dictattr', 'mydict')
+
+
+class UserList(list):
+    """a user's own subclass of list"""
+
+
+class UserDict(dict):
+    """a user's own subclass of dict"""
+
+
+def _stamp(p):
+    """the datetime of an axis position. An int is the axis stamp itself; a float k + m * 1e-7 is the stamp AXIS[k] moved by m microseconds (|m| < 10**6: inside
+    one second, for |m| < 1000 inside one millisecond), so that positions sort as their stamps do"""
+    if isinstance(p, int):
+        return AXIS[p]
+    k = int(round(p))
+    return AXIS[k] + datetime.timedelta(microseconds=int(round((p - k) * 1e7)))
+
+
+def _is_fine(p):
+    return not isinstance(p, int)
 
 
 # ============================================================================================ model (pure python, on specs)
@@ -103,11 +148,11 @@ INCLUDE_F15 = os.environ.get('PV_C03_EXCLUDE_F15', '') != '1'
 def _walk(node):
     """depth-first leaves of a tree, in list order / dict insertion order"""
     t = node[0]
-    if t in ('list', 'tuple'):
+    if t in _LISTS:
         for c in node[1]:
             for x in _walk(c):
                 yield x
-    elif t in ('dict', 'Dict'):
+    elif t in _DICTS:
         for k, c in node[1]:
             for x in _walk(c):
                 yield x
@@ -121,9 +166,9 @@ def _ts_leaves(node):
 
 def _depth(node):
     t = node[0]
-    if t in ('list', 'tuple'):
+    if t in _LISTS:
         return 1 + max([_depth(c) for c in node[1]], default=0)
-    if t in ('dict', 'Dict'):
+    if t in _DICTS:
         return 1 + max([_depth(c) for k, c in node[1]], default=0)
     return 0
 
@@ -137,7 +182,7 @@ def _exp_index(join, idxs, top=None):
     if not idxs:
         return None
     k = _jkind(join)
-    if k in ('idx', 'series'):
+    if k in ('idx', 'series', 'raw'):
         return list(join[1])
     if k == 'arg':
         return list(top[join[1]][1])
@@ -236,7 +281,7 @@ def _frame_is_f11(leaf, target, method):
 def _spec_target(spec):
     tree = spec['tree']
     leaves = _ts_leaves(tree)
-    return _exp_index(spec['join'], [l[1] for l in leaves], tree[1] if tree[0] in ('list', 'tuple') else None)
+    return _exp_index(spec['join'], [l[1] for l in leaves], tree[1] if tree[0] in _LISTS else None)
 
 
 def is_f11(spec):
@@ -251,9 +296,9 @@ def is_f11(spec):
 
 def _map_tree(node, f):
     t = node[0]
-    if t in ('list', 'tuple'):
+    if t in _LISTS:
         return [t, [_map_tree(c, f) for c in node[1]]]
-    if t in ('dict', 'Dict'):
+    if t in _DICTS:
         return [t, [[k, _map_tree(c, f)] for k, c in node[1]]]
     return f(node)
 
@@ -369,7 +414,9 @@ def _mk_index(pos, unit=None):
     import pandas as pd
 
     def make():
-        i = pd.DatetimeIndex([AXIS[p] for p in pos])
+        i = pd.DatetimeIndex([_stamp(p) for p in pos])
+        if unit in ('s', 'ms') and any(_is_fine(p) for p in pos):
+            raise AssertionError('harness: an index of resolution %s cannot hold the stamps %s' % (unit, pos))
         i = i.as_unit(unit) if unit else i
         return i.tz_localize(_TZ[0]) if _TZ[0] else i
     if _SHARED[0] is not None:
@@ -424,12 +471,12 @@ def _build(node):
         if key not in _OBJECTS[0]:
             _OBJECTS[0][key] = _build_node(node)
         return _OBJECTS[0][key]
-    if _CONTAINERS[0] is not None and node[0] in ('list', 'dict', 'Dict'):
+    if _CONTAINERS[0] is not None and node[0] in _OWNED:
         key = json.dumps(node)
         if key not in _CONTAINERS[0]:
             _CONTAINERS[0][key] = _snap(_build_node(node))
         return _CONTAINERS[0][key]
-    if node[0] in ('list', 'dict', 'Dict'):
+    if node[0] in _OWNED:
         return _snap(_build_node(node))
     return _build_node(node)
 
@@ -489,6 +536,16 @@ def _build_node(node):
     if t == 'Dict':
         from pyg_base import Dict
         return Dict({k: _build(c) for k, c in node[1]})
+    if t == 'mylist':
+        return UserList([_build(c) for c in node[1]])
+    if t == 'odict':
+        import collections
+        return collections.OrderedDict([(k, _build(c)) for k, c in node[1]])
+    if t == 'dictattr':
+        from pyg_base import dictattr
+        return dictattr({k: _build(c) for k, c in node[1]})
+    if t == 'mydict':
+        return UserDict({k: _build(c) for k, c in node[1]})
     raise ValueError(node)
 
 
@@ -535,11 +592,30 @@ def _build_view(node):
 def _leaf_objects(node, obj):
     """the built timeseries objects of a tree, in walk order"""
     t = node[0]
-    if t in ('list', 'tuple'):
+    if t in _LISTS:
         return [x for i, c in enumerate(node[1]) for x in _leaf_objects(c, obj[i])]
-    if t in ('dict', 'Dict'):
+    if t in _DICTS:
         return [x for k, c in node[1] for x in _leaf_objects(c, obj[k])]
     return [obj] if t in ('s', 'f') else []
+
+
+def _raw_index(pos, form):
+    """the explicit index in another raw form than a DatetimeIndex: an object-dtype pd.Index holding datetime.datetime objects ('obj_dt') / pd.Timestamp objects
+    ('obj_ts') / both in turns ('obj_mixed'), or a DataFrame carrying the index ('frame'; a Series carrying it is the join kind 'series')"""
+    import pandas as pd
+    stamps = [pd.Timestamp(_aware(_stamp(p))) for p in pos]
+    if form == 'frame':
+        return pd.DataFrame([[float(i), -1.0] for i in range(len(pos))], index=_mk_index(pos), columns=['u', 'v'])
+    if form == 'obj_dt':
+        return pd.Index([t.to_pydatetime() for t in stamps], dtype=object)
+    if form == 'obj_ts':
+        return pd.Index(stamps, dtype=object)
+    if form == 'obj_mixed':
+        return pd.Index([t.to_pydatetime() if i % 2 else t for i, t in enumerate(stamps)], dtype=object)
+    raise ValueError(form)
+
+
+_RAW_FORMS = ['obj_dt', 'obj_ts', 'obj_mixed', 'frame']
 
 
 def _build_join(join, tree=None, objs=None):
@@ -548,6 +624,8 @@ def _build_join(join, tree=None, objs=None):
             return _mk_index(join[1], _unit(join))
         if join[0] == 'series':
             return _build_node(['s', join[1], [float(i) for i in range(len(join[1]))], 'float'] + ([{'unit': _unit(join)}] if _unit(join) else []))
+        if join[0] == 'raw':
+            return _raw_index(join[1], join[2])
         if join[0] == 'arg':
             return 'p%i' % join[1]
         if join[0] == 'member':
@@ -578,8 +656,8 @@ def _show(vals):
 
 def _check_index(where, res, target):
     got = list(res.index)
-    ok = len(got) == len(target) and all(_same_stamp(g, AXIS[p]) for g, p in zip(got, target))
-    check(ok, '%s: index is %s, expected %s', where, [str(g) for g in got], [str(_aware(AXIS[p])) for p in target])
+    ok = len(got) == len(target) and all(_same_stamp(g, _stamp(p)) for g, p in zip(got, target))
+    check(ok, '%s: index is %s, expected %s', where, [str(g) for g in got], [str(_aware(_stamp(p))) for p in target])
 
 
 def _check_column(where, got, exp):
@@ -636,12 +714,12 @@ def _cmp(node, orig, res, ctx, path='result'):
     where = '%s at %s' % (ctx.what, path)
     if t == 'v':
         check(res is orig, '%s: the non-timeseries member %s came back as %s (not the same object)', where, orig, res)
-    elif t in ('list', 'tuple'):
+    elif t in _LISTS:
         check(type(res) is type(orig), '%s: a %s came back as %s', where, type(orig).__name__, type(res).__name__)
         check(len(res) == len(orig), '%s: %s members came back as %s', where, len(orig), len(res))
         for i, c in enumerate(node[1]):
             _cmp(c, orig[i], res[i], ctx, '%s[%i]' % (path, i))
-    elif t in ('dict', 'Dict'):
+    elif t in _DICTS:
         check(type(res) is type(orig), '%s: a %s came back as %s', where, type(orig).__name__, type(res).__name__)
         check(sorted(res.keys()) == sorted(orig.keys()), '%s: keys %s came back as %s', where, sorted(orig.keys()), sorted(res.keys()))
         for k, c in node[1]:
@@ -662,12 +740,12 @@ def _verify_all(tree, objs, what):
 def _verify_inputs(node, obj, what, path='argument'):
     """operands unchanged: the objects handed in must still be what the spec says"""
     t = node[0]
-    if t in ('list', 'tuple'):
+    if t in _LISTS:
         if not (isinstance(obj, (list, tuple)) and len(obj) == len(node[1])):
             raise Violation('%s modified the container %s: now %s' % (what, path, short(obj, 120)))
         for i, c in enumerate(node[1]):
             _verify_inputs(c, obj[i], what, '%s[%i]' % (path, i))
-    elif t in ('dict', 'Dict'):
+    elif t in _DICTS:
         if not isinstance(obj, dict):
             raise Violation('%s modified the container %s: now %s' % (what, path, short(obj, 120)))
         check(sorted(obj.keys()) == sorted(k for k, c in node[1]), '%s modified the keys of %s', what, path)
@@ -690,12 +768,15 @@ def _describe(spec):
                                                    ' [keyword call]' if spec.get('kw') else '')
 
 
+_SKETCH = {'mylist': 'UserList', 'odict': 'OrderedDict', 'dictattr': 'dictattr', 'mydict': 'UserDict'}
+
+
 def _sketch(node):
     t = node[0]
-    if t in ('list', 'tuple'):
-        return t[0] + '[' + ','.join(_sketch(c) for c in node[1]) + ']'
-    if t in ('dict', 'Dict'):
-        return t[0] + '{' + ','.join('%s:%s' % (k, _sketch(c)) for k, c in node[1]) + '}'
+    if t in _LISTS:
+        return _SKETCH.get(t, t[0]) + '[' + ','.join(_sketch(c) for c in node[1]) + ']'
+    if t in _DICTS:
+        return _SKETCH.get(t, t[0]) + '{' + ','.join('%s:%s' % (k, _sketch(c)) for k, c in node[1]) + '}'
     if t == 's':
         return 'S%s%s' % (node[1], _unit(node) or '')
     if t == 'f':
@@ -762,7 +843,7 @@ def _classes(spec, leaves, target, ctx):
             elif a and b and not (a <= b or b <= a):
                 partial = True
     cls += _fingerprints(idxs, '')
-    if isinstance(spec['join'], list) and spec['join'][0] in ('idx', 'series'):
+    if isinstance(spec['join'], list) and spec['join'][0] in ('idx', 'series', 'raw'):
         for i in idxs:
             cls += [c for c in _fingerprints([i, list(spec['join'][1])], 'vs_target:') if c not in cls]
     if partial:
@@ -793,6 +874,7 @@ def _classes(spec, leaves, target, ctx):
             cls.append('zone_aware_stamps_off_utc_under_an_outer_join')
     cls += _round4_classes(spec, leaves, target)
     cls += _round6_classes(spec, leaves, target)
+    cls += _round7_classes(spec, leaves, target)
     nt = len(idxs) >= 2 and (partial or disjoint) or bool(ctx is not None and ctx.filled)
     return dict(nt=bool(nt), cls=cls)
 
@@ -801,11 +883,11 @@ def _list_sizes(node, top=True, npos=None):
     """member counts of the list / tuple containers the library loops over (presync: the positional arguments form one such tuple)"""
     t = node[0]
     out = []
-    if t in ('list', 'tuple'):
+    if t in _LISTS:
         out.append(npos if (top and npos is not None) else len(node[1]))
         for c in node[1]:
             out += _list_sizes(c, False)
-    elif t in ('dict', 'Dict'):
+    elif t in _DICTS:
         for k, c in node[1]:
             out += _list_sizes(c, False)
     return out
@@ -813,9 +895,9 @@ def _list_sizes(node, top=True, npos=None):
 
 def _dict_keys(node):
     t = node[0]
-    if t in ('list', 'tuple'):
+    if t in _LISTS:
         return [k for c in node[1] for k in _dict_keys(c)]
-    if t in ('dict', 'Dict'):
+    if t in _DICTS:
         return [k for k, c in node[1]] + [x for k, c in node[1] for x in _dict_keys(c)]
     return []
 
@@ -870,6 +952,52 @@ def _round6_classes(spec, leaves, target):
     return cls
 
 
+def _container_tags(node, top=True):
+    """(tag, is it the root) of every container of a tree"""
+    t = node[0]
+    if t in _LISTS:
+        return [(t, top)] + [x for c in node[1] for x in _container_tags(c, False)]
+    if t in _DICTS:
+        return [(t, top)] + [x for k, c in node[1] for x in _container_tags(c, False)]
+    return []
+
+
+def _round7_classes(spec, leaves, target):
+    """labels of the input classes added for bug classes 32, 33, 35 of the builder brief"""
+    cls = []
+    join, method = spec['join'], spec['method']
+    # 32: two labels of the case (in two operands, or in an operand and the explicit target) that are the same stamp but for some microseconds
+    lists = [list(l[1]) for l in leaves]
+    if isinstance(join, list) and join[0] in ('idx', 'series', 'raw'):
+        lists.append(list(join[1]))
+    stamps = sorted(set(p for i in lists for p in i))
+    gaps = [round((b - a) * 1e7) for a, b in zip(stamps, stamps[1:]) if int(round(a)) == int(round(b))]
+    if gaps:
+        cls.append('stamps_microseconds_apart')
+        cls.append('stamps_apart_inside_one_millisecond' if min(gaps) < 1000 else 'stamps_apart_inside_one_second_only')
+        if _jkind(join) in ('i', 'o', 'l', 'r') and len(leaves) >= 2:
+            cls.append('stamps_microseconds_apart_under_a_join_policy')
+        if method in ('ffill', 'bfill') and target and any(t not in l[1] and any(int(round(s)) == int(round(t)) for s in l[1]) for l in leaves for t in target):
+            cls.append('as_of_read_microseconds_off_an_observation')      # the stamp asked for lies microseconds before / after a stamp the operand has
+    # 33: the explicit index comes in another raw form than a DatetimeIndex
+    if isinstance(join, list) and join[0] == 'raw':
+        cls.append('explicit_index_in_another_raw_form')
+        cls.append('raw_form=' + join[2])
+    # 35: containers that are instances of classes derived from list / dict
+    tags = _container_tags(spec['tree'])
+    if spec['call'] == 'presync':
+        tags = [(t, False) for t, top in tags[1:]]                 # the root of a presync tree is the argument list itself
+    derived = [(t, top) for t, top in tags if t in _DERIVED]
+    if derived:
+        cls.append('container_of_a_derived_class')
+        cls += sorted(set('container=' + t for t, top in derived))
+        if any(not top for t, top in derived):
+            cls.append('derived_container_below_the_root')
+        if any(t == 'mydict' for t, top in derived):
+            cls.append('user_subclass_of_dict')
+    return cls
+
+
 def _round4_classes(spec, leaves, target):
     """labels of the input classes added for bug classes 11-20 of the builder brief"""
     cls = []
@@ -900,7 +1028,7 @@ def _round4_classes(spec, leaves, target):
     sizes = _list_sizes(spec['tree'], True, spec.get('npos') if spec['call'] == 'presync' else None)
     if target is not None and len(target) >= 1 and len(target) in sizes:
         cls.append('index_length_equals_member_count')
-        if isinstance(join, list) and join[0] in ('idx', 'series', 'member', 'member_index'):
+        if isinstance(join, list) and join[0] in ('idx', 'series', 'raw', 'member', 'member_index'):
             cls.append('explicit_index_as_long_as_the_list')
     if spec.get('kw'):
         cls.append('keyword_call')
@@ -923,8 +1051,8 @@ def run_sync(spec):
     if fn == 'df_index':
         res = call(what, df_index, seq=objs, index=jarg) if kw else call(what, df_index, objs, jarg)
         if target is not None:
-            check(res is not None and hasattr(res, '__len__') and len(res) == len(target) and all(_same_stamp(g, AXIS[p]) for g, p in zip(list(res), target)),
-                  '%s returned %s, expected %s', what, res, [str(_aware(AXIS[p])) for p in target])
+            check(res is not None and hasattr(res, '__len__') and len(res) == len(target) and all(_same_stamp(g, _stamp(p)) for g, p in zip(list(res), target)),
+                  '%s returned %s, expected %s', what, res, [str(_aware(_stamp(p))) for p in target])
     else:
         if fn == 'df_reindex':
             res = call(what, df_reindex, ts=objs, index=jarg, method=method) if kw else call(what, df_reindex, objs, jarg, method)
@@ -1166,13 +1294,13 @@ def run_presync_cols(spec):
     def colname(node, got):
         """the column label this call is about, read off the first Series that was cut out of a multi-column frame"""
         t = node[0]
-        if t in ('list', 'tuple'):
+        if t in _LISTS:
             for i, c in enumerate(node[1]):
                 if isinstance(got, (list, tuple)) and len(got) == len(node[1]):
                     r = colname(c, got[i])
                     if r is not None:
                         return r
-        elif t in ('dict', 'Dict'):
+        elif t in _DICTS:
             for k, c in node[1]:
                 if isinstance(got, dict) and k in got:
                     r = colname(c, got[k])
@@ -1200,11 +1328,11 @@ def run_presync_cols(spec):
             exp, filled = _asof(idx, _col(rows, j), target, method)
             ctx.filled += filled
             _check_column(where, got.values.tolist(), exp)
-        elif t in ('list', 'tuple'):
+        elif t in _LISTS:
             check(type(got) is type(orig) and len(got) == len(orig), '%s at %s: a %s of %s came back as %s', what, path, type(orig).__name__, len(orig), got)
             for i, c in enumerate(node[1]):
                 cmpcol(c, orig[i], got[i], col, '%s[%i]' % (path, i))
-        elif t in ('dict', 'Dict'):
+        elif t in _DICTS:
             check(type(got) is type(orig) and sorted(got.keys()) == sorted(orig.keys()), '%s at %s: container came back as %s', what, path, got)
             for k, c in node[1]:
                 cmpcol(c, orig[k], got[k], col, '%s[%r]' % (path, k))
@@ -1298,11 +1426,11 @@ def _cmp_arrs(node, orig, res, n, method, what, path='result'):
     where = '%s at %s' % (what, path)
     if t == 'v':
         check(res is orig, '%s: the non-array member %s came back as %s (not the same object)', where, orig, res)
-    elif t in ('list', 'tuple'):
+    elif t in _LISTS:
         check(type(res) is type(orig) and len(res) == len(orig), '%s: a %s of %s came back as %s', where, type(orig).__name__, len(orig), res)
         for i, c in enumerate(node[1]):
             _cmp_arrs(c, orig[i], res[i], n, method, what, '%s[%i]' % (path, i))
-    elif t in ('dict', 'Dict'):
+    elif t in _DICTS:
         check(type(res) is type(orig) and sorted(res.keys()) == sorted(orig.keys()), '%s: container came back as %s', where, res)
         for k, c in node[1]:
             _cmp_arrs(c, orig[k], res[k], n, method, what, '%s[%r]' % (path, k))
@@ -1378,6 +1506,12 @@ def _run_arrays(spec):
         cls.append('common_length_0')
     if method and any(x is None for l in leaves for x in l[3]):
         cls.append('fill_with_nan_cells')
+    tags = _container_tags(tree)
+    derived = [(t, top) for t, top in (tags[1:] if fn == 'presync' else tags) if t in _DERIVED]
+    if derived:
+        cls.append('container_of_a_derived_class')
+        if any(not top for t, top in derived):
+            cls.append('derived_container_below_the_root')
     if spec.get('buffer') is not None:
         views = [l for l in leaves if l[2][0] >= 1]
         if len(views) >= 2:
@@ -1655,12 +1789,61 @@ def _container(draw, state, depth, max_depth, kinds, leaf, types, lo, hi):
     t = draw(st.sampled_from(types))
     n = draw(st.integers(lo, hi))
     kids = [draw(_node(state, depth, max_depth, kinds, leaf)) for _ in range(n)]
-    if t in ('list', 'tuple'):
+    # in one case in seven every second container that the caller owns (below the root; at the root where the root is the df_* argument itself, not the argument list of a presync call)
+    # is an instance of a class DERIVED from list / dict: a user subclass of list, an OrderedDict, a pyg_base.dictattr (a user subclass of dict only behind the switch)
+    if 'derived' not in state:
+        state['derived'] = draw(st.integers(0, 6)) == 0          # a switch of the case, drawn with its first container
+    derived = draw(st.booleans()) and state['derived'] and (depth > 1 or 'dict' in types)
+    which = draw(st.integers(0, 5))
+    if derived and t == 'list':
+        t = 'mylist'
+    elif derived and t in ('dict', 'Dict'):
+        t = (['odict', 'odict', 'dictattr', 'dictattr'] + (['mydict', 'mydict'] if INCLUDE_DICT_SUBCLASS else ['odict', 'dictattr']))[which]
+    if t in _LISTS:
         return [t, kids]
     keys = list(draw(st.permutations(_KEYS)))[:n]
     if draw(st.integers(0, 5)) == 0:
         keys = list(draw(st.permutations(_INT_KEYS)))[:n]          # a dict keyed by numbers only
     return [t, [[k, c] for k, c in zip(keys, kids)]]
+
+
+_FINE_US = [1, 5, 400, 999, -1, -5, -400, 250000, -250000, 999999]       # microseconds: inside one millisecond, or inside one second
+
+
+def _fine_stamps(draw, tree, join):
+    """brief class 32, by construction: ONE timeseries of the case (every verbatim repeat of it likewise) or the explicit target gets ONE of its stamps moved by some
+    microseconds - where possible a stamp that another operand / the target holds too, so that two labels of the case then differ only below a millisecond / a second.
+    The index that holds the moved stamp is of resolution us or ns"""
+    leaves = _ts_leaves(tree)
+    explicit = isinstance(join, list) and join[0] in ('idx', 'series', 'raw')
+    keys = []
+    for l in leaves:
+        k = json.dumps(l)
+        if l[1] and k not in keys:
+            keys.append(k)
+    holders = [json.loads(k)[1] for k in keys] + ([list(join[1])] if explicit and join[1] else [])
+    if not holders:
+        return tree, join
+    v = draw(st.integers(0, len(holders) - 1))
+    own = holders[v]
+    shared = [p for p in own if any(p in h for i, h in enumerate(holders) if i != v)]
+    pool = shared or own
+    p = pool[draw(st.integers(0, len(pool) - 1))]
+    q = p + draw(st.sampled_from(_FINE_US)) * 1e-7
+    if v < len(keys):
+        def fix(leaf):
+            if json.dumps(leaf) != keys[v]:
+                return leaf
+            leaf = copy.deepcopy(leaf)
+            leaf[1] = [q if x == p else x for x in leaf[1]]
+            if _unit(leaf) in ('s', 'ms'):
+                leaf[4] = dict(leaf[4], unit='us')
+            return leaf
+        return _map_tree(tree, fix), join
+    join = [join[0], [q if x == p else x for x in join[1]]] + list(join[2:])
+    if join[0] != 'raw' and len(join) > 2 and join[2] in ('s', 'ms'):
+        join[2] = 'us'
+    return tree, join
 
 
 def _positions():
@@ -1710,6 +1893,8 @@ def _round4_join(draw, state, tree, join, npos=None):
         if sizes:
             m = sizes[draw(st.integers(0, len(sizes) - 1))]
             join = [join[0], sorted(list(draw(st.permutations(list(range(N)))))[:m])]
+    if r == 3:
+        return ['raw', join[1], draw(st.sampled_from(_RAW_FORMS))]     # the explicit index in another raw form than a DatetimeIndex / a Series (brief class 33)
     if state.get('units'):
         join = [join[0], join[1], draw(st.sampled_from(_UNITS))]
     return join
@@ -1750,6 +1935,8 @@ def _sync_case(draw):
     join = _right_when_last_shares(draw, tree, _round4_join(draw, state, tree, _target_like_first(draw, state, tree, join)))
     if state['family'] == 'disjoint' and draw(st.booleans()):
         join = _SPELL['i'][draw(st.booleans())]              # every index is disjoint from the first one: half of these cases ask for the (empty) intersection
+    if draw(st.integers(0, 11)) == 0:
+        tree, join = _fine_stamps(draw, tree, join)
     spec = dict(call=fn, tree=tree, join=join, method=method, share_index=draw(st.booleans()), tz=draw(_TZS))
     if fn == 'df_sync':
         spec['columns'] = columns
@@ -1774,6 +1961,11 @@ def _asof_case(draw):
                               _positions().map(lambda p: ['series', p]), st.sampled_from(['ij', 'oj'])))
     if state['units'] and isinstance(join, list):
         join = [join[0], join[1], draw(st.sampled_from(_UNITS))]
+    r = draw(st.integers(0, 39))
+    if isinstance(join, list) and r < 4:
+        join = ['raw', join[1], _RAW_FORMS[r]]               # one explicit target in ten comes in another raw form, the four forms alike
+    if draw(st.integers(0, 9)) == 0:
+        leaf, join = _fine_stamps(draw, leaf, join)
     return _repair(dict(call='df_reindex', tree=leaf, join=join, method=draw(st.sampled_from(['ffill', 'bfill'])), tz=draw(_TZS)))
 
 
@@ -1814,6 +2006,8 @@ def _presync_case(draw, frames_in_col_mode=False):
         join = ['arg', single[draw(st.integers(0, len(single) - 1))]]
     if join[0] == 'arg' and (sig == 'var_both' or (sig in ('varargs', 'varkw') and join[1] != 0)):
         sig, npos = 'named', draw(st.integers(0, len(kids)))                      # index='p<i>' names a declared parameter
+    if draw(st.integers(0, 11)) == 0:
+        tree, join = _fine_stamps(draw, tree, join)
     spec = dict(call='presync', tree=tree, join=join, method=method, columns=columns, how=how, npos=npos, sig=sig, share_index=draw(st.booleans()), tz=draw(_TZS))
     if state['dups']:
         spec['same_objects'] = draw(st.integers(0, 3)) != 0
@@ -1901,6 +2095,8 @@ def _session_case(draw):
             pool.append(draw(_container(state, 2, 2, ['s', 's', 's', 'f'], _ts_leaf, ['list', 'dict', 'dict', 'Dict'], 1, 2)))
         else:
             pool.append(draw(_ts_leaf(state, ['s', 's', 's', 'f'])))
+    if draw(st.integers(0, 11)) == 0:
+        pool = _fine_stamps(draw, ['list', pool], 'ij')[0][1]
     k0 = draw(st.sampled_from(['i', 'o', 'l', 'r']))
     deco = dict(join=_SPELL[k0][draw(st.booleans())], method=draw(st.sampled_from(METHODS)))
     shared_deco = draw(st.integers(0, 3)) != 0
@@ -2098,7 +2294,7 @@ def run_session(spec):
         _DECO[0] = None
 
 
-_R4_IN_SESSION = {'zone_aware_stamps', 'near_equal_operands', 'tiny_cell_values', 'zero_cell_value', 'mixed_datetime_units', 'same_object_passed_twice', 'numeric_column_labels', 'int_column_in_frame', 'numeric_dict_keys'}
+_R4_IN_SESSION = {'stamps_microseconds_apart', 'container_of_a_derived_class', 'zone_aware_stamps', 'near_equal_operands', 'tiny_cell_values', 'zero_cell_value', 'mixed_datetime_units', 'same_object_passed_twice', 'numeric_column_labels', 'int_column_in_frame', 'numeric_dict_keys'}
 
 
 # ============================================================================================ registration
@@ -2109,7 +2305,8 @@ _RULE_TS = ('timeseries = float Series (NaN sprinkled / none / all NaN), int Ser
             'in a minority of cases each: the DatetimeIndex resolutions (s/ms/us/ns) differ between operands and target; a timeseries is repeated verbatim (ONE object handed in several times, or equal distinct objects; left / right joins when the first / last one is the repeat); '
             'all column labels are integers; a frame has an int64 column; a frame repeats a column label (only where no column policy acts); dicts are keyed by integers; '
             'a timeseries holds cells of the order 1e-9 and exact zeros; a timeseries is an earlier one revised by less than a comparison tolerance (1e-9 / 2.5e-4 on one or every cell); '
-            'every index of the case lies in one time zone (Asia/Tokyo, US/Eastern, Europe/London); ')
+            'every index of the case lies in one time zone (Asia/Tokyo, US/Eastern, Europe/London); one stamp of one operand / of the target lies 1 .. 999999 microseconds off a stamp of another; '
+            'the explicit index is an object-dtype pd.Index of datetime / Timestamp objects or a DataFrame; containers are a user subclass of list / OrderedDict / dictattr; ')
 
 SUBS = [
     Sub('sync', lambda tier: _sync_case(), run_sync, quick=1600, thorough=12000,
@@ -2128,7 +2325,10 @@ SUBS = [
                                  'left_right_join_with_a_repeated_object': 0.004, 'operand_is_also_the_target': 0.03, 'numeric_column_labels': 0.02, 'duplicate_column_labels': 0.008,
                                  'int_column_in_frame': 0.015, 'numeric_dict_keys': 0.07, 'index_length_equals_member_count': 0.03, 'explicit_index_as_long_as_the_list': 0.013,
                                  'keyword_call': 0.08,
-                                 'fill_asked_beyond_the_first_or_last_observation': 0.045, 'near_equal_operands': 0.015, 'tiny_cell_values': 0.024, 'zero_cell_value': 0.019, 'zero_cell_value_under_a_fill': 0.009}),
+                                 'fill_asked_beyond_the_first_or_last_observation': 0.045, 'near_equal_operands': 0.015, 'tiny_cell_values': 0.024, 'zero_cell_value': 0.019, 'zero_cell_value_under_a_fill': 0.009,
+                                 # classes 32 / 33 / 35 of the brief (generalisation pass 3)
+                                 'stamps_microseconds_apart': 0.03, 'stamps_apart_inside_one_millisecond': 0.028, 'stamps_apart_inside_one_second_only': 0.003, 'stamps_microseconds_apart_under_a_join_policy': 0.02, 'as_of_read_microseconds_off_an_observation': 0.01,
+                                 'explicit_index_in_another_raw_form': 0.012, 'container_of_a_derived_class': 0.03, 'derived_container_below_the_root': 0.019, 'container=odict': 0.012, 'container=dictattr': 0.009, 'container=mylist': 0.017}),
     Sub('asof', lambda tier: _asof_case(), run_sync, quick=1600, thorough=12000,
         rule=_RULE_TS + 'one bare object, df_reindex(obj, explicit DatetimeIndex / Series as index / ij / oj, method) with method mostly ffill/bfill; '
              'same oracle. non-trivial = a cell filled from another stamp',
@@ -2136,7 +2336,9 @@ SUBS = [
                                   'vs_target:same_span_same_length_different_interior': 0.05, 'vs_target:nested_chain': 0.1,
                                   'vs_target:same_length_different_stamps': 0.05, 'vs_target:same_endpoints_different_length': 0.03,
                                   'mixed_datetime_units': 0.02, 'numeric_column_labels': 0.02, 'duplicate_column_labels': 0.006, 'int_column_in_frame': 0.006,
-                                  'zone_aware_stamps': 0.08, 'fill_asked_beyond_the_first_or_last_observation': 0.09, 'tiny_cell_values': 0.013, 'zero_cell_value': 0.01, 'zero_cell_value_under_a_fill': 0.01}),
+                                  'zone_aware_stamps': 0.08, 'fill_asked_beyond_the_first_or_last_observation': 0.09, 'tiny_cell_values': 0.013, 'zero_cell_value': 0.01, 'zero_cell_value_under_a_fill': 0.01,
+                                 # classes 32 / 33 / 35 of the brief (generalisation pass 3)
+                                 'stamps_microseconds_apart': 0.033, 'stamps_apart_inside_one_millisecond': 0.026, 'as_of_read_microseconds_off_an_observation': 0.033, 'explicit_index_in_another_raw_form': 0.025, 'raw_form=frame': 0.005, 'raw_form=obj_dt': 0.005, 'raw_form=obj_ts': 0.005, 'raw_form=obj_mixed': 0.005}),
     Sub('presync', lambda tier: _presync_case(), run_presync, quick=1200, thorough=8000,
         rule=_RULE_TS + 'f returns its arguments; f is declared as f(p0..p3), f(p0, *rest), f(p0, **kw), f(*a, **kw), f(p0, *, p1, p2, p3) or with declared defaults that are / hold timeseries (which must reach f untouched and leave the common index alone); 1-4 arguments (each a leaf or a tree to depth 2) passed positionally / by keyword / mixed; '
              'presync configured by constructor, by properties (.oj.ffill), by call-time join=/method= (and columns= against another constructor policy), index="p<i>", or an operand as index; columns=False with any tree, '
@@ -2147,7 +2349,10 @@ SUBS = [
                                  'columns_given_at_call_time': 0.1, 'same_object_passed_twice': 0.02, 'left_right_join_with_a_repeated_object': 0.005,
                                  'operand_is_also_the_target': 0.012, 'mixed_datetime_units': 0.02, 'explicit_index_as_long_as_the_list': 0.004, 'duplicate_column_labels': 0.004,
                                  'numeric_dict_keys': 0.04,
-                                 'zone_aware_stamps': 0.08, 'fill_asked_beyond_the_first_or_last_observation': 0.045, 'near_equal_operands': 0.015, 'tiny_cell_values': 0.024, 'zero_cell_value': 0.02, 'zero_cell_value_under_a_fill': 0.008}),
+                                 'zone_aware_stamps': 0.08, 'fill_asked_beyond_the_first_or_last_observation': 0.045, 'near_equal_operands': 0.015, 'tiny_cell_values': 0.024, 'zero_cell_value': 0.02, 'zero_cell_value_under_a_fill': 0.008,
+                                 # classes 32 / 33 / 35 of the brief (generalisation pass 3)
+                                 'stamps_microseconds_apart': 0.03, 'stamps_microseconds_apart_under_a_join_policy': 0.018, 'as_of_read_microseconds_off_an_observation': 0.011, 'explicit_index_in_another_raw_form': 0.008,
+                                 'container_of_a_derived_class': 0.014, 'container=odict': 0.0055, 'container=dictattr': 0.0055, 'container=mylist': 0.008}),
     Sub('presync_cols', lambda tier: _presync_case(True), run_presync_cols, quick=1000, thorough=6000,
         rule=_RULE_TS + 'default column mode with frames among the arguments: f records every call; expected one call per common column (the shared columns '
              'when all multi-column frames agree, else the ij/oj/lj/rj column set), each call seeing every multi-column frame as that column (Series on the '
@@ -2157,7 +2362,10 @@ SUBS = [
                                   'default=given': 0.13, 'default_shown_for_a_lacking_column': 0.024, 'columns_given_at_call_time': 0.1, 'numeric_column_labels': 0.03,
                                  'sig=kwonly': 0.025, 'sig=defaults': 0.02, 'timeseries_in_an_unpassed_declared_default': 0.02, 'int_column_in_frame': 0.02,
                                  'mixed_datetime_units': 0.02, 'same_object_passed_twice': 0.02, 'operand_is_also_the_target': 0.016,
-                                 'zone_aware_stamps': 0.08, 'default=0.0': 0.045, 'fill_asked_beyond_the_first_or_last_observation': 0.05, 'near_equal_operands': 0.015, 'tiny_cell_values': 0.027, 'zero_cell_value': 0.025, 'zero_cell_value_under_a_fill': 0.008}),
+                                 'zone_aware_stamps': 0.08, 'default=0.0': 0.045, 'fill_asked_beyond_the_first_or_last_observation': 0.05, 'near_equal_operands': 0.015, 'tiny_cell_values': 0.027, 'zero_cell_value': 0.025, 'zero_cell_value_under_a_fill': 0.008,
+                                 # classes 32 / 33 / 35 of the brief (generalisation pass 3)
+                                 'stamps_microseconds_apart': 0.03, 'as_of_read_microseconds_off_an_observation': 0.012, 'explicit_index_in_another_raw_form': 0.007,
+                                 'container_of_a_derived_class': 0.012, 'container=odict': 0.006, 'container=dictattr': 0.004, 'container=mylist': 0.0055}),
     Sub('session', lambda tier: _session_case(), run_session, quick=800, thorough=6000,
         rule=_RULE_TS + '3-4 Series / frames (now and then a small list / dict of them, or one of them twice) built ONCE, then 2-4 calls of df_index / df_reindex / df_sync / presync(f) on ordered selections of those same objects (half of them a '
              'prefix or an extension of the previous selection), mostly under one join policy; every call judged by the oracle of sync / presync, so a result may not depend on '
@@ -2171,7 +2379,9 @@ SUBS = [
                                  'one_decorator_applied_to_two_functions': 0.014, 'mixed_datetime_units': 0.045, 'numeric_column_labels': 0.025, 'numeric_dict_keys': 0.025,
                                  'same_object_passed_twice': 0.14, 'int_column_in_frame': 0.018,
                                  'zone_aware_stamps': 0.05, 'near_equal_operands': 0.03, 'tiny_cell_values': 0.028, 'zero_cell_value': 0.02,
-                                 'operand_edited_in_place_between_calls': 0.05, 'operand_edited_in_place_after_it_was_aligned': 0.045}),
+                                 'operand_edited_in_place_between_calls': 0.05, 'operand_edited_in_place_after_it_was_aligned': 0.045,
+                                 # classes 32 / 33 / 35 of the brief (generalisation pass 3)
+                                 'stamps_microseconds_apart': 0.04, 'container_of_a_derived_class': 0.01}),
     Sub('arrays', lambda tier: _arrays_case(6 if tier == 'quick' else 9), run_arrays, quick=2000, thorough=12000,
         rule='trees (depth <= 3) of bare numpy arrays: 1-d and 2-d (1-3 columns), 0-6 rows (0-9 thorough), float64 with NaN / int64, mixed with scalars; '
              'df_sync / df_reindex / df_index / presync(columns=False) with ij,oj,lj,rj and method None/ffill/bfill. Oracle: common length = min/max/first/last, '
@@ -2180,5 +2390,7 @@ SUBS = [
              'two views in three repeating the shape of the previous one; the buffer must stay unwritten. '
              'non-trivial = at least two different lengths',
         floor=0.3, class_floors={'truncated': 0.2, 'padded': 0.2, '2d': 0.2, 'empty_array': 0.05,
-                                 'views_of_one_buffer': 0.02, 'same_buffer_same_shape_other_strides': 0.015, 'same_buffer_same_shape_other_strides_resized': 0.0035}),
+                                 'views_of_one_buffer': 0.02, 'same_buffer_same_shape_other_strides': 0.015, 'same_buffer_same_shape_other_strides_resized': 0.0035,
+                                 # classes 32 / 33 / 35 of the brief (generalisation pass 3)
+                                 'container_of_a_derived_class': 0.023, 'derived_container_below_the_root': 0.014}),
 ]
